@@ -297,6 +297,28 @@ pub fn enumerate_inputs(ctx: &Ctx, visit: Visit, shrink: usize) {
             }
         }
     });
+    // R3b: as R3 with exact RDLENGTH, but one position of X ranges over all 256 byte values
+    let l3b = ctx.tier.pick(3usize, 4usize) - shrink.min(1);
+    sweep(ctx, visit, "R3b: per type code (42), X over the reduced alphabet with one position taking every byte value, RDLENGTH = |X|", &sig3, l3b, &|x, msgs| {
+        for pos in 0..x.len() {
+            for v in 0..=255u8 {
+                if sig3.contains(&v) {
+                    continue;
+                }
+                for &code in codes_ref.iter() {
+                    let mut m = header(0x8000, [0, 1, 0, 0]);
+                    m.push(0);
+                    m.extend_from_slice(&code.to_be_bytes());
+                    m.extend_from_slice(&[0, 1, 0, 0, 0, 9]);
+                    m.extend_from_slice(&(x.len() as u16).to_be_bytes());
+                    let at = m.len();
+                    m.extend_from_slice(x);
+                    m[at + pos] = v;
+                    msgs.push(m);
+                }
+            }
+        }
+    });
     // R4: per type and field boundary, canonical prefix then free bytes, exact RDLENGTH
     let mut prefixes: Vec<(u16, Vec<u8>)> = Vec::new();
     for sch in SCHEMAS {
@@ -369,20 +391,31 @@ pub fn enumerate_inputs(ctx: &Ctx, visit: Visit, shrink: usize) {
             run(&m[..cut], t);
         }
         let mut x = m.clone();
+        // short messages: every one of the 256 values at every position; long ones: the perturbation set
+        let all_values = shrink == 0 && m.len() <= 160;
         for i in 0..m.len() {
             let orig = m[i];
-            for p in PERTURB.iter().copied().chain([orig.wrapping_add(1), orig.wrapping_sub(1)]) {
-                if p == orig {
-                    continue;
+            if all_values {
+                for p in 0..=255u8 {
+                    if p != orig {
+                        x[i] = p;
+                        run(&x, t);
+                    }
                 }
-                x[i] = p;
-                run(&x, t);
+            } else {
+                for p in PERTURB.iter().copied().chain([orig.wrapping_add(1), orig.wrapping_sub(1)]) {
+                    if p == orig {
+                        continue;
+                    }
+                    x[i] = p;
+                    run(&x, t);
+                }
             }
             x[i] = orig;
         }
         total.fetch_add(n, std::sync::atomic::Ordering::Relaxed);
     });
-    ctx.space(&format!("cut/perturb: {} valid reference messages (every type, <=1 deviation, plain and compressed), every truncation point and every byte set to -1/+1/00/01/3f/40/80/c0/ff", n_seed), total.load(std::sync::atomic::Ordering::Relaxed), "complete");
+    ctx.space(&format!("cut/perturb: {} valid reference messages (every type, <=1 deviation, plain and compressed), every truncation point and every byte set to every other value (messages up to 160 bytes) or to -1/+1/00/01/3f/40/80/c0/ff (longer ones)", n_seed), total.load(std::sync::atomic::Ordering::Relaxed), "complete");
     if let Some(s) = seeds.get(3) {
         ctx.sample(json!({"kind": "parse", "msg": hex(&s[..s.len() - 3]), "note": "seed message truncated by 3"}));
     }
@@ -425,6 +458,97 @@ pub fn enumerate_inputs(ctx: &Ctx, visit: Visit, shrink: usize) {
             }
         });
         ctx.space(&format!("pointer graphs: {} cells in the question-name region, an NS answer pointing into them", k), totalc, "complete");
+    }
+    // R5: every EDNS option code, with empty / zero / non-zero payloads, alone and next to another option
+    {
+        let codes: Vec<u32> = (0..=65535u32).collect();
+        let chunks: Vec<&[u32]> = codes.chunks(1024).collect();
+        let payloads: [&[u8]; 6] = [&[], &[0], &[0, 0, 0, 0, 0, 0], &[0xff, 0xff, 0xff], &[1, 2, 3, 4, 5, 6, 7, 8], &[0, 12, 0, 0]];
+        let total = std::sync::atomic::AtomicU64::new(0);
+        par_shards(ctx, &chunks, |cs, t: &mut Tally| {
+            let mut n = 0u64;
+            for &code in cs.iter() {
+                for pl in payloads.iter() {
+                    for placement in 0..3u8 {
+                        let mut opts: Vec<u8> = Vec::new();
+                        if placement == 1 {
+                            opts.extend_from_slice(&[0, 10, 0, 8, 1, 2, 3, 4, 5, 6, 7, 8]);
+                        }
+                        opts.extend_from_slice(&(code as u16).to_be_bytes());
+                        opts.extend_from_slice(&(pl.len() as u16).to_be_bytes());
+                        opts.extend_from_slice(pl);
+                        if placement == 2 {
+                            opts.extend_from_slice(&[0, 3, 0, 2, b'n', b's']);
+                        }
+                        let mut m = header(0x0100, [0, 0, 0, 1]);
+                        m.extend_from_slice(&[0, 0, 41, 0x04, 0xd0, 0, 0, 0, 0]);
+                        m.extend_from_slice(&(opts.len() as u16).to_be_bytes());
+                        m.extend_from_slice(&opts);
+                        n += 1;
+                        visit(&m, t);
+                    }
+                }
+            }
+            total.fetch_add(n, std::sync::atomic::Ordering::Relaxed);
+        });
+        ctx.space("R5: OPT record with every option code 0..=65535 x 6 payloads (empty, zeros, non-zero, option-shaped) x {alone, after a cookie, before another option}", total.load(std::sync::atomic::Ordering::Relaxed), "complete");
+    }
+    // R6: every TYPE code x class x short generic RDATA bodies
+    {
+        let codes: Vec<u32> = if shrink == 0 { (0..=65535u32).collect() } else { (0..=300u32).chain(32760..=32780).chain(65270..=65535).collect() };
+        let chunks: Vec<&[u32]> = codes.chunks(512).collect();
+        let mut bodies: Vec<Vec<u8>> = Vec::new();
+        for n in 0..=10usize {
+            bodies.push(vec![0u8; n]);
+        }
+        for k in 0..=4usize {
+            let mut b = vec![1, b'a', 0];
+            b.extend(std::iter::repeat(0x12).take(k));
+            bodies.push(b);
+        }
+        bodies.push(vec![0xff]);
+        bodies.push(vec![0xff, 0xff, 0xff]);
+        bodies.push(vec![0xc0, 0x0c]);
+        bodies.push(vec![0xc0, 0x0c, 0, 1]);
+        let classes: [u16; 6] = [1, 3, 4, 254, 0x8001, 0];
+        let total = std::sync::atomic::AtomicU64::new(0);
+        let bodies = &bodies;
+        par_shards(ctx, &chunks, |cs, t: &mut Tally| {
+            let mut n = 0u64;
+            for &code in cs.iter() {
+                for class in classes {
+                    for b in bodies.iter() {
+                        let mut m = header(0x8000, [1, 1, 0, 0]);
+                        m.extend_from_slice(&[1, b'q', 0, 0, 1, 0, 1]);
+                        m.extend_from_slice(&[0xc0, 12]);
+                        m.extend_from_slice(&(code as u16).to_be_bytes());
+                        m.extend_from_slice(&class.to_be_bytes());
+                        m.extend_from_slice(&[0, 0, 0, 5]);
+                        m.extend_from_slice(&(b.len() as u16).to_be_bytes());
+                        m.extend_from_slice(b);
+                        n += 1;
+                        visit(&m, t);
+                    }
+                }
+            }
+            total.fetch_add(n, std::sync::atomic::Ordering::Relaxed);
+        });
+        ctx.space(&format!("R6: a record of each of {} TYPE codes x 6 classes x {} generic RDATA bodies (zeros of length 0..=10, a short name plus 0..=4 bytes, ff.., pointers)", codes.len(), bodies.len()), total.load(std::sync::atomic::Ordering::Relaxed), "complete");
+    }
+    // R7: names that take many decoding steps, and reference encodings of the full size sweep
+    {
+        let mut msgs = gen::name_shape_messages(if shrink == 0 { 700 } else { 300 });
+        for p in gen::size_sweep_packets() {
+            msgs.push(p.encode(0));
+            msgs.push(p.encode_compressed(0, true));
+        }
+        let chunks: Vec<&[Vec<u8>]> = msgs.chunks(64).collect();
+        par_shards(ctx, &chunks, |ms, t: &mut Tally| {
+            for m in ms.iter() {
+                visit(m, t);
+            }
+        });
+        ctx.space("R7: many-step names (0..=130 inline labels, every label length, pointer chains of every length up to 700 and 2000/4000/8000) and reference encodings of the full size sweep (string / tail / name / list sizes, 2..400 distinct repeated names)", msgs.len() as u64, "complete");
     }
 }
 
